@@ -1,6 +1,7 @@
 package eng
 
 import (
+	"regexp"
 	"fmt"
 	"go/constant"
 	"go/types"
@@ -447,7 +448,7 @@ func (e *Engine) zeroOfSort(s string, t types.Type) T {
 		}
 		_ = k
 		z := e.zeroOfSort(v, et)
-		return T{fmt.Sprintf("((as const %s) %s)", s, z.S), s}
+		return e.constArray(s, z)
 	}
 	if st, ok := e.structInfo[s]; ok {
 		if st.NumFields() == 0 {
@@ -501,4 +502,28 @@ func (e *Engine) constTerm(c constant.Value, t types.Type) T {
 	}
 	e.unsupported("constant %v of sort %s", c, s)
 	return T{"0", s}
+}
+
+var nilTokRe = regexp.MustCompile(`(^|[ (])nil([ )]|$)`)
+
+// constArray is the array of sort s whose every element is z.  cvc5 only accepts value
+// literals in (as const …); an element mentioning the uninterpreted constant nil gets a named
+// array with a quantified definition instead.
+func (e *Engine) constArray(s string, z T) T {
+	if !nilTokRe.MatchString(z.S) {
+		return T{fmt.Sprintf("((as const %s) %s)", s, z.S), s}
+	}
+	key := "constarr|" + s + "|" + z.S
+	if n, ok := e.constArrs[key]; ok {
+		return T{n, s}
+	}
+	k, _ := arrayKV(s)
+	n := e.freshName("carr")
+	e.emitDecl(fmt.Sprintf("(declare-const %s %s)", n, s))
+	e.emitDecl(fmt.Sprintf("(assert (forall ((i %s)) (! (= (select %s i) %s) :pattern ((select %s i)))))", k, n, z.S, n))
+	if e.constArrs == nil {
+		e.constArrs = map[string]string{}
+	}
+	e.constArrs[key] = n
+	return T{n, s}
 }
